@@ -123,6 +123,7 @@ void ProtoRun::filter_record(Record &r, std::vector<Bytes> &out) {
     Armed &a = armed[dir];
     if (captured_reset) { have_held[0] = have_held[1] = false; captured_reset = false; }
     Unit u; u.b = r.raw;
+    if (have_glue[dir]) { Bytes j = glue_b[dir]; j.insert(j.end(), u.b.begin(), u.b.end()); u.b = j; u.tampered = true; u.kind = "glued_ccs"; u.is_mod = false; have_glue[dir] = false; g_q[dir].push_back(u); return; }
     if (pending_gap[dir]) { u.tampered = true; u.kind = "after_drop"; u.is_mod = gap_is_mod[dir]; pending_gap[dir] = false; }
     if (a.on && a.skip > 0) { a.skip--; }
     else if (a.on) {
@@ -183,6 +184,8 @@ void ProtoRun::filter_record(Record &r, std::vector<Bytes> &out) {
             for (int i = 0; i < n; i++) { Bytes c = make_record(20, v, Bytes{ 1 }, pc.dtls(), 0, 5000 + (uint64_t) i); pre.insert(pre.end(), c.begin(), c.end()); }
             pre.insert(pre.end(), u.b.begin(), u.b.end());
             u.b = pre; u.tampered = true; u.kind = "glued_ccs"; u.is_mod = false;
+            // b & 1: the NEXT honest record of this direction arrives in the same read as well (CCS.., record, record)
+            if (a.b & 1) { glue_b[dir] = u.b; have_glue[dir] = true; return; }
         } else if (a.kind == "fragmove") {
             // DTLS: one fragment claims a longer message AND a fragment offset at/after the originally announced end (two fields changed together)
             if (pc.dtls() && r.type == 22 && blen >= 12 && r.epoch == 0) {
